@@ -152,13 +152,20 @@ Definition g_emit (g : grouper) : res table :=
 Record sorter := mkS {
   s_keys : list expr; s_desc : bool; s_cols : list str; s_rows : list data }.
 
-(** [Record::ordering] *)
-Fixpoint ordering (keys : list expr) (l r : data) : res comparison :=
+(** [Record::ordering]: a key that cannot be evaluated sorts after every
+    value and equal to another failing key (after the fix) *)
+Definition key_cmp (a b : res value) : comparison :=
+  match a, b with
+  | Ok x, Ok y => vcmp x y
+  | Ok _, _ => Lt
+  | _, Ok _ => Gt
+  | _, _ => Eq
+  end.
+
+Fixpoint ordering (keys : list expr) (l r : data) : comparison :=
   match keys with
-  | [] => Ok Eq
-  | k :: ks =>
-      do a <- eval k l; do b <- eval k r;
-      match vcmp a b with Eq => ordering ks l r | c => Ok c end
+  | [] => Eq
+  | k :: ks => cmp_then (key_cmp (eval k l) (eval k r)) (ordering ks l r)
   end.
 
 (** [Record::ordering_ref] *)
@@ -170,7 +177,7 @@ Fixpoint ordering_ref (cols : list str) (l r : data) : comparison :=
 
 Definition sort_cmp (s : sorter) (l r : data) : comparison :=
   let prim := if s_desc s then ordering (s_keys s) r l else ordering (s_keys s) l r in
-  cmp_then (match prim with Ok c => c | _ => Lt end) (ordering_ref (s_cols s) l r).
+  cmp_then prim (ordering_ref (s_cols s) l r).
 
 Definition s_emit (s : sorter) : table :=
   mkT (s_cols s) (isort (fun a b => cmp_le (sort_cmp s a b)) (s_rows s)).
@@ -243,7 +250,11 @@ Definition agg_process_record (a : aggop) (d : data) : res aggop :=
 Definition agg_emit (a : aggop) : res table :=
   match a with
   | AGroup g => g_emit g
-  | ASorter s => Ok (s_emit s)
+  | ASorter s =>
+      (* a key outside the modelled fragment makes the whole order unmodelled *)
+      if existsb (fun d => existsb (fun k => match eval k d with Unm | Panic => true | _ => false end)
+                                   (s_keys s)) (s_rows s)
+      then Unm else Ok (s_emit s)
   | AAdapter _ t => Ok t
   end.
 
